@@ -7,6 +7,7 @@
 #include <errno.h>
 #include <fcntl.h>
 #include <locale.h>
+#include <execinfo.h>
 #include <stdarg.h>
 #include <stdio.h>
 #include <stdlib.h>
@@ -119,11 +120,12 @@ int vf_first_live(const void **p, size_t *size, const void **site, unsigned long
 }
 
 void vf_reset_peaks(void) { vf_peak_blocks = vf_live_blocks; vf_peak_bytes = vf_live_bytes; vf_stack_low = NULL; }
-void vf_arm(unsigned long k, unsigned long k2) { arm_k = k; arm_k2 = k2; vf_alloc_seq = 0; armed = 1; vf_faults_fired = 0; vf_fault_site[0] = vf_fault_site[1] = NULL; vf_fault_kind[0] = vf_fault_kind[1] = NULL; }
+void vf_arm(unsigned long k, unsigned long k2) { arm_k = k; arm_k2 = k2; vf_alloc_seq = 0; armed = 1; vf_faults_fired = 0; vf_fault_site[0] = vf_fault_site[1] = NULL; vf_fault_kind[0] = vf_fault_kind[1] = NULL; vf_fault_nframes = 0; }
 void vf_disarm(void) { armed = 0; }
 void vf_freelog_reset(void) { vf_freelog_n = 0; }
 
 /* returns 1 if this allocation-type call must fail */
+void *vf_fault_stack[10]; int vf_fault_nframes;
 static int fault(const char *kind, const void *site)
 {
 	char here;
@@ -132,6 +134,7 @@ static int fault(const char *kind, const void *site)
 	vf_alloc_seq++;
 	if (armed && (vf_alloc_seq == arm_k || (arm_k2 && vf_alloc_seq == arm_k2))) {
 		if (vf_faults_fired < 2) { vf_fault_site[vf_faults_fired] = site; vf_fault_kind[vf_faults_fired] = kind; }
+		if (vf_faults_fired == 0) vf_fault_nframes = backtrace(vf_fault_stack, 10);   /* who asked for the allocation that fails (the consumer of printbuf growth, say) */
 		vf_faults_fired++;
 		errno = ENOMEM;
 		return 1;
